@@ -34,3 +34,8 @@ add('C16', 'Hypothesis-generated segments, query-point classes, facing segment p
     'Pairs face each other (anti-parallel within 60 degrees) as the contact search delivers them; distance accuracy is absolute (1e-12 of segment length plus '
     '16 ulp of the coordinates); the sign of the distance is not asserted for points on the line within rounding; mortar claims for tilted pairs are limited to '
     'invariance, non-negativity and vanishing without overlap.')
+add('C20', 'Hypothesis-generated writer histories (model-based: ordered field tables, spheres, edges) + independent legacy-VTK reader; round-trip and byte-identity oracles',
+    'Generated histories of add_nodal_field / add_cell_field / add_sphere / add_contact_edges / write on meshes of order 1-4 are executed against the real '
+    'writer and against a model; after every write an independent strict reader parses the file and all counts, connectivity, coordinates and values are '
+    'compared with the model; consecutive writes must be byte-identical. Sampling of histories up to 11 operations.',
+    'The checker-side reader is the reference for well-formedness; fields are supplied with documented shapes; contact edges use vertex node ids.')
